@@ -75,7 +75,9 @@ def vrf_mismatch(cfg, e, g, efib, vobs):
 def main(c):
     thorough = c.tier == "thorough"
     cfgs = [
-        Cfg("f1", ["p1", "p2"], ["a1", "a2", "b1", "c1"], {"A": [0], "B": [0], "C": [0]}, ["c1", "c2", "c3"], ["n1", "n2"],
+        # three sessions that tie up to the router-id step (two external, one route-server client) with three next hops, so
+        # that the tied set can have a hole in the middle; an internal one below them
+        Cfg("f1", ["p1", "p2"], ["a1", "c1", "d1", "b1"], {"A": [0], "B": [0], "C": [0], "D": [0]}, ["c1", "c2", "c3"], ["n1", "n2", "n3"],
             filt=(False, True), ops=OPS),
         Cfg("f2", ["p1", "p2"], ["a1", "b1", "d1", "e1"], {"A": [0, 1], "B": [0], "D": [0], "E": [0]}, ["c1", "c4", "cN"], ["n1", "n2", "n3"],
             filt=(False,), ops=OPS),
@@ -88,13 +90,16 @@ def main(c):
     total = 0
     steps = 0
     vobs = {"must": 0, "may": 0, "none": 0, "empty": 0, "left_in_unmatched_vrf": 0}
+    if thorough:
+        # the decision process and the ECMP set of the model itself, exhaustively, over a configuration TLC can finish (one
+        # prefix, three peers, tying / winning classes, two next hops, import rejection, every operation incl. soft reset)
+        dcfg = Cfg("fd", ["p1"], ["a1", "b1", "c1"], {"A": [0], "B": [0], "C": [0]}, ["c1", "c2", "c3"], ["n1", "n2"], filt=(False, True), ops=OPS)
+        r = riblib.design(dcfg, ["OrderOK", "BestOK"], timeout=2400, workers=10)
+        c.add_tlc("design-" + dcfg.name, r)
+        if r.violated:
+            c.violation("design", {"invariant": r.violated, "tlc": r.error_text[:3000]}, {"spec": "Rib", "config": dcfg.describe()})
+            return
     for cfg in cfgs:
-        r = riblib.design(cfg, ["OrderOK", "BestOK"], timeout=1500, workers=8) if thorough else None
-        if r is not None:
-            c.add_tlc("design-" + cfg.name, r)
-            if r.violated:
-                c.violation("design", {"invariant": r.violated, "tlc": r.error_text[:3000]}, {"spec": "Rib", "config": cfg.describe()})
-                return
         walks = riblib.gen_walks(cfg, num, depth, c.seed + 5)
         if not walks:
             raise vf.ToolError("RibMC produced no walks")
